@@ -282,6 +282,30 @@ def sweep(ctx, n):
             if centres is None or centres != want:
                 bad("frames-list", f"with style_path_frames={frames} on a path of length {m} the object is not drawn at the poses of indices {[min(f, m - 1) for f in frames]}",
                     {"frames": frames, "path_length": m, "drawn_centres": centres, "expected_centres": want})
+        # a user-defined 3D trace (style.model3d) in the display backend's own format, coordinates given as a STATIC kwargs dict, on an object
+        # with a path shown at several frames: every copy of the trace is the given coordinates placed at that frame's pose, the
+        # kwargs the user handed over are unchanged, and drawing twice gives the same figure
+        for trial in range(max(2, n // 10)):
+            nps = np.random.default_rng(rng.randrange(2**31))
+            m = rng.choice([3, 4])
+            pos = np.cumsum(nps.uniform(0.5, 2, (m, 3)), axis=0)
+            ori = R.from_rotvec(nps.uniform(-1, 1, (m, 3)))
+            obj = magpy.magnet.Cuboid(dimension=(0.3, 0.3, 0.3), polarization=(0, 0, 1), position=pos, orientation=ori, style_model3d_showdefault=False)
+            pts = nps.uniform(-0.5, 0.5, (4, 3))
+            user_kw = {"x": pts[:, 0].copy(), "y": pts[:, 1].copy(), "z": pts[:, 2].copy(), "mode": "markers"}
+            obj.style.model3d.add_trace(backend="plotly", constructor="Scatter3d", kwargs=user_kw)
+            frames = list(range(m))
+            figs = [magpy.show(obj, backend="plotly", return_fig=True, style_path_frames=frames, style_path_show=False) for _ in range(2)]
+            done += 1
+            kinds["custom-trace-frames"] = kinds.get("custom-trace-frames", 0) + 1
+            got = [np.concatenate([xyz(t) for t in f_.data if type(t).__name__ == "Scatter3d" and t.mode == "markers"]) if any(type(t).__name__ == "Scatter3d" for t in f_.data) else np.zeros((0, 3)) for f_ in figs]
+            want = np.concatenate([ori[k_].apply(pts) + pos[k_] for k_ in range(m)])
+            def same_set(a_, b_):
+                return len(a_) == len(b_) and all(np.min(np.linalg.norm(b_ - p_, axis=1)) < 1e-9 for p_ in a_) and all(np.min(np.linalg.norm(a_ - p_, axis=1)) < 1e-9 for p_ in b_)
+            kw_same = all(np.array_equal(user_kw[a_], pts[:, j_]) for j_, a_ in enumerate("xyz"))
+            if not (same_set(got[0], want) and same_set(got[1], want) and kw_same):
+                bad("custom-trace-frames", f"a user model3d trace (plotly Scatter3d, static kwargs) on an object shown at frames {frames}: drawn points are not the given points placed at each frame's pose "
+                    f"(first show ok: {same_set(got[0], want)}, second show ok: {same_set(got[1], want)}, user's kwargs unchanged: {kw_same})", {"frames": frames, "path_length": m})
         done += mapback_section(magpy, rng, n, bad, kinds)
         done += units_section(magpy, rng, bad, kinds)
     return fails, {"c19_figures": done, "c19_kinds": kinds}
